@@ -25,6 +25,8 @@ func runC06(r *Run, p *Prog) {
 	siblingRules(r, p, "C05", []string{"K8"}, "Q11")
 	// Q12: an unknown lower-case word is rejected only if every built-in type node is built under the fact `keyword == its name`
 	siblingRules(r, p, "C05", []string{"K1"}, "Q12")
+	// Q13: no text is silently ignored only if the layout skipper passes over exactly the grammar's layout bytes and comments
+	siblingRules(r, p, "C05", []string{"K5"}, "Q13")
 	m, why := buildIDLModel(p)
 	if m == nil {
 		r.Unresolved("Q1", why)
